@@ -1,83 +1,113 @@
 ------------------------------ MODULE Pipeline ------------------------------
 (* The exception relay of the threaded processor (property C06, strax/processors/threaded_mailbox.py,
-   strax/mailbox.py kill / kill_from_exception / send / _read, strax/storage/common.py Saver.save_from)
-   for a chain of NS stages: stage 1 is a source plugin, stage i > 1 reads mailbox i-1, every stage i
-   writes mailbox i; mailbox i is read by stage i+1 (if any), by a saver (if i \in Saved) and, for
-   i = NS, by the main thread (the consumer of get_iter).
+   strax/mailbox.py kill / kill_from_exception / send / _read / _send_from, strax/storage/common.py
+   Saver.save_from) for a chain of NS stages: stage 1 is a source plugin, stage i > 1 reads mailbox i-1,
+   every stage i writes mailbox i; mailbox i is read by stage i+1 (if any, reader "P"), by a saver (if
+   i \in Saved, reader "S") and, for i = NS, by the main thread (the consumer of get_iter, reader "M").
 
-   Mailbox operations are atomic here (blocking = not enabled); the condition-variable level underneath
-   is the subject of Mailbox.tla, which is bisimulated with the real strax.Mailbox (C05).  What this
-   module adds is who kills which mailbox with which reason, who wakes up, and what the caller gets.
+   Mailbox operations are atomic here (one action per locked section; blocking = not enabled); the
+   condition-variable level underneath is the subject of Mailbox.tla, which is bisimulated with the real
+   strax.Mailbox (C05).  What this module adds is who kills which mailbox with which reason, who wakes
+   up, and what the caller gets.  It is bound to the real processor by PipelineTrace.tla.
 
    Fail selects one injected failure: <<"stage", i, k>> (stage i raises while computing its k-th chunk),
-   <<"saver", i, k>>, <<"close", i, 0>> (saver i fails while closing), <<"consumer", 0, k>> (the consumer
-   raises after k chunks), <<"stop", 0, k>> (the consumer closes the iterator after k chunks) or
-   <<"none", 0, 0>>.  Reasons: "orig" = the injected exception.                                      *)
+   <<"saver", i, k>>, <<"close", i, 0>> (saver i fails while closing), <<"consumer", 0, k>> / <<"stop", 0, k>>
+   (the consumer raises / closes the iterator after k chunks: either way the generator of get_iter is closed
+   and context.get_iter throws OutsideException into the processor) or <<"none", 0, 0>>.
+   Reasons: "orig" = the injected exception, "stop" = OutsideException.                               *)
 EXTENDS Naturals, Sequences, FiniteSets, TLC
 
-CONSTANTS NS, NChunks, Cap, Lazy, Saved, Fail,
+CONSTANTS NS, NChunks, Saved,
+          CapSet, LazySet, FailSet,    \* the run's parameters (cap, lazy, fail) are chosen once in Init and never change
           MainKills     \* TRUE: the main thread kills every mailbox when it has an exception (as the code does); FALSE only to show
                         \* that the properties below depend on it (vacuity guard)
 
 Stages == 1..NS
 Readers(m) == (IF m < NS THEN {"P"} ELSE {"M"}) \cup (IF m \in Saved THEN {"S"} ELSE {})
-Drives(r) == r # "S" \/ ~Lazy           \* savers do not drive in lazy mode
 
-VARIABLES sent, ended, killed, force, reason, rd,       \* mailboxes: messages pushed, END pushed, kill flags, who read how much
-          waiting,                                       \* waiting[m][r]: reader r is blocked asking for the next message of m
+VARIABLES sent, ended, killed, force, reason,            \* mailboxes: messages pushed, END pushed, killed / force_killed, killed_because
+          rd, lb,                                        \* rd[m][r]: messages grabbed by reader r (_subscribers_have_read + 1); lb: grabbed, not yet yielded
+          waiting,                                       \* waiting[m][r]: _subscriber_waiting_for[r] is not None
           spc, sk,                                       \* stage pc and number of chunks it has produced
           vpc, vk, gotExc,                               \* saver pc, chunks saved, got_exception
-          mpc, mk, exc, outcome, killIdx
-vars == <<sent, ended, killed, force, reason, rd, waiting, spc, sk, vpc, vk, gotExc, mpc, mk, exc, outcome, killIdx>>
+          mpc, mk, exc, outcome, toKill,
+          cap, lazy, fail                                \* parameters of the run: max_messages, lazy mode, the injected failure
+Cap == cap
+Lazy == lazy
+Fail == fail
+params == <<cap, lazy, fail>>
+Drives(r) == r # "S" \/ ~Lazy           \* savers of built data do not drive in lazy mode
+vars == <<sent, ended, killed, force, reason, rd, lb, waiting, spc, sk, vpc, vk, gotExc, mpc, mk, exc, outcome, toKill, cap, lazy, fail>>
 
 Min(T) == CHOOSE x \in T : \A y \in T : x <= y
 Total(m) == sent[m] + (IF ended[m] THEN 1 ELSE 0)
 MinRead(m) == Min({rd[m][r] : r \in Readers(m)})
-Held(m) == Total(m) - MinRead(m)                          \* undelivered messages buffered
-CanWrite(m) == Lazy \/ Held(m) < Cap \/ killed[m]
-CanFetch(m) == killed[m] \/ \E r \in Readers(m) : Drives(r) /\ waiting[m][r] /\ rd[m][r] = Total(m)
+Held(m) == Total(m) - MinRead(m)                          \* len(_mailbox): messages not yet grabbed by every subscriber
+CanWrite(m) == Held(m) < Cap \/ killed[m]
 Available(m, r) == rd[m][r] < Total(m)
+\* Mailbox._can_fetch: nobody is still waiting for a message that is already there, and a driving subscriber waits
+CanFetch(m) == killed[m] \/ (/\ ~\E r \in Readers(m) : waiting[m][r] /\ Available(m, r)
+                             /\ \E r \in Readers(m) : Drives(r) /\ waiting[m][r])
 
-Init == /\ sent = [m \in Stages |-> 0] /\ ended = [m \in Stages |-> FALSE] /\ killed = [m \in Stages |-> FALSE]
+Init == /\ cap \in CapSet /\ lazy \in LazySet /\ fail \in FailSet
+        /\ sent = [m \in Stages |-> 0] /\ ended = [m \in Stages |-> FALSE] /\ killed = [m \in Stages |-> FALSE]
         /\ force = [m \in Stages |-> FALSE] /\ reason = [m \in Stages |-> "none"]
-        /\ rd = [m \in Stages |-> [r \in Readers(m) |-> 0]] /\ waiting = [m \in Stages |-> [r \in Readers(m) |-> FALSE]]
+        /\ rd = [m \in Stages |-> [r \in Readers(m) |-> 0]] /\ lb = [m \in Stages |-> [r \in Readers(m) |-> 0]]
+        /\ waiting = [m \in Stages |-> [r \in Readers(m) |-> FALSE]]
         /\ spc = [i \in Stages |-> IF Lazy THEN "gate" ELSE "fetch"] /\ sk = [i \in Stages |-> 0]
         /\ vpc = [i \in Stages |-> IF i \in Saved THEN "read" ELSE "done"] /\ vk = [i \in Stages |-> 0] /\ gotExc = [i \in Stages |-> FALSE]
-        /\ mpc = "read" /\ mk = 0 /\ exc = "none" /\ outcome = "running" /\ killIdx = 1
+        /\ mpc = "read" /\ mk = 0 /\ exc = "none" /\ outcome = "running" /\ toKill = {}
 
 \* Mailbox.kill(upstream=True, reason)
 KillOf(m, why, kd, fc, rs) == <<[kd EXCEPT ![m] = TRUE], [fc EXCEPT ![m] = TRUE], IF kd[m] THEN rs ELSE [rs EXCEPT ![m] = why]>>
 
+(* ------------------------------- Mailbox._read, as seen by reader r of mailbox m -------------------------------
+   One locked section per visit: not ready -> register as waiting and sleep (Ask); killed -> MailboxKilled (Killed);
+   otherwise grab every message that is there (Grab) and yield them one by one without looking at the mailbox
+   again (Local).  Item n is a chunk iff n <= sent[m], else the END marker.                                        *)
+ReadAsk(m, r) == /\ lb[m][r] = 0 /\ ~waiting[m][r] /\ ~Available(m, r) /\ ~killed[m]
+                 /\ waiting' = [waiting EXCEPT ![m][r] = TRUE] /\ UNCHANGED <<rd, lb>>
+ReadKilled(m, r) == /\ lb[m][r] = 0 /\ killed[m]
+                    /\ waiting' = [waiting EXCEPT ![m][r] = FALSE] /\ UNCHANGED <<rd, lb>>
+ReadGrab(m, r) == /\ lb[m][r] = 0 /\ ~killed[m] /\ Available(m, r)
+                  /\ rd' = [rd EXCEPT ![m][r] = Total(m)] /\ lb' = [lb EXCEPT ![m][r] = Total(m) - rd[m][r] - 1]
+                  /\ waiting' = [waiting EXCEPT ![m][r] = FALSE]
+ReadLocal(m, r) == /\ lb[m][r] > 0 /\ lb' = [lb EXCEPT ![m][r] = @ - 1] /\ UNCHANGED <<rd, waiting>>
+ReadItem(m, r) == ReadGrab(m, r) \/ ReadLocal(m, r)
+ItemIsChunk(m, r) == (IF lb[m][r] > 0 THEN rd[m][r] - lb[m][r] + 1 ELSE rd[m][r] + 1) <= sent[m]
+
 (* ------------------------------- stage i: _send_from(mailbox i) over plugin.iter ------------------------------- *)
 StageGate(i) == /\ spc[i] = "gate" /\ CanFetch(i) /\ spc' = [spc EXCEPT ![i] = "fetch"]
-                /\ UNCHANGED <<sent, ended, killed, force, reason, rd, waiting, sk, vpc, vk, gotExc, mpc, mk, exc, outcome, killIdx>>
+                /\ UNCHANGED <<sent, ended, killed, force, reason, rd, lb, waiting, sk, vpc, vk, gotExc, mpc, mk, exc, outcome, toKill>>
 \* next(iterable): a source computes; a plugin first asks its input mailbox for the next chunk
-StageAsk(i) == /\ spc[i] = "fetch" /\ i > 1 /\ ~waiting[i - 1]["P"]
-               /\ waiting' = [waiting EXCEPT ![i - 1]["P"] = TRUE]
-               /\ UNCHANGED <<sent, ended, killed, force, reason, rd, spc, sk, vpc, vk, gotExc, mpc, mk, exc, outcome, killIdx>>
+StageAsk(i) == /\ spc[i] = "fetch" /\ i > 1 /\ ReadAsk(i - 1, "P")
+               /\ UNCHANGED <<sent, ended, killed, force, reason, spc, sk, vpc, vk, gotExc, mpc, mk, exc, outcome, toKill>>
 StageFetch(i) ==
   /\ spc[i] = "fetch"
   /\ IF i = 1 THEN
         /\ spc' = [spc EXCEPT ![i] = IF sk[i] < NChunks THEN "compute" ELSE "close"]
-        /\ UNCHANGED <<killed, force, reason, rd, waiting>>
+        /\ UNCHANGED <<killed, force, reason, rd, lb, waiting>>
      ELSE LET m == i - 1 IN
-        /\ waiting[m]["P"]
-        /\ IF killed[m] THEN          \* MailboxKilled travels downstream: kill my own mailbox with the same reason, end quietly
-              LET k == KillOf(i, reason[m], killed, force, reason) IN
-              /\ killed' = k[1] /\ force' = k[2] /\ reason' = k[3] /\ spc' = [spc EXCEPT ![i] = "done"]
-              /\ waiting' = [waiting EXCEPT ![m]["P"] = FALSE] /\ UNCHANGED rd
-           ELSE /\ Available(m, "P")
-                /\ rd' = [rd EXCEPT ![m]["P"] = @ + 1] /\ waiting' = [waiting EXCEPT ![m]["P"] = FALSE]
-                /\ spc' = [spc EXCEPT ![i] = IF rd[m]["P"] < sent[m] THEN "compute" ELSE "close"]    \* a chunk, or the END marker
-                /\ UNCHANGED <<killed, force, reason>>
-  /\ UNCHANGED <<sent, ended, sk, vpc, vk, gotExc, mpc, mk, exc, outcome, killIdx>>
+        \/ /\ ReadKilled(m, "P")       \* MailboxKilled(killed_because) is raised into plugin.iter and out of next(iterable)
+           /\ spc' = [spc EXCEPT ![i] = "relay"] /\ UNCHANGED <<killed, force, reason>>
+        \/ /\ ReadItem(m, "P")
+           /\ spc' = [spc EXCEPT ![i] = IF ItemIsChunk(m, "P") THEN "compute" ELSE "close"]
+           /\ UNCHANGED <<killed, force, reason>>
+  /\ UNCHANGED <<sent, ended, sk, vpc, vk, gotExc, mpc, mk, exc, outcome, toKill>>
+\* _send_from: except Exception -> kill_from_exception(MailboxKilled): kill my own mailbox with the same reason (a second locked
+\* section, on the stage's own mailbox), end quietly
+StageRelay(i) ==
+  /\ spc[i] = "relay"
+  /\ LET k == KillOf(i, reason[i - 1], killed, force, reason) IN killed' = k[1] /\ force' = k[2] /\ reason' = k[3]
+  /\ spc' = [spc EXCEPT ![i] = "done"]
+  /\ UNCHANGED <<sent, ended, rd, lb, waiting, sk, vpc, vk, gotExc, mpc, mk, exc, outcome, toKill>>
 StageCompute(i) ==
   /\ spc[i] = "compute"
   /\ IF Fail = <<"stage", i, sk[i]>> THEN       \* kill_from_exception(e): kill my mailbox with the original exception, thread raises
         LET k == KillOf(i, "orig", killed, force, reason) IN
         killed' = k[1] /\ force' = k[2] /\ reason' = k[3] /\ spc' = [spc EXCEPT ![i] = "done"]
      ELSE spc' = [spc EXCEPT ![i] = "send"] /\ UNCHANGED <<killed, force, reason>>
-  /\ UNCHANGED <<sent, ended, rd, waiting, sk, vpc, vk, gotExc, mpc, mk, exc, outcome, killIdx>>
+  /\ UNCHANGED <<sent, ended, rd, lb, waiting, sk, vpc, vk, gotExc, mpc, mk, exc, outcome, toKill>>
 StageSend(i) ==
   /\ spc[i] \in {"send", "close"}
   /\ IF force[i] THEN        \* send raises MailboxKilled: the source is told (throw), own mailbox is already killed
@@ -89,18 +119,17 @@ StageSend(i) ==
           /\ IF spc[i] = "send" THEN sent' = [sent EXCEPT ![i] = @ + 1] /\ sk' = [sk EXCEPT ![i] = @ + 1] /\ UNCHANGED ended
              ELSE ended' = [ended EXCEPT ![i] = TRUE] /\ UNCHANGED <<sent, sk>>
           /\ spc' = [spc EXCEPT ![i] = IF spc[i] = "close" THEN "done" ELSE IF Lazy THEN "gate" ELSE "fetch"]
-  /\ UNCHANGED <<killed, force, reason, rd, waiting, vpc, vk, gotExc, mpc, mk, exc, outcome, killIdx>>
+  /\ UNCHANGED <<killed, force, reason, rd, lb, waiting, vpc, vk, gotExc, mpc, mk, exc, outcome, toKill>>
+StageNext(i) == (StageGate(i) \/ StageAsk(i) \/ StageFetch(i) \/ StageRelay(i) \/ StageCompute(i) \/ StageSend(i)) /\ UNCHANGED params
 
 (* ------------------------------- saver of mailbox i: Saver.save_from ------------------------------- *)
-SaverAsk(i) == /\ vpc[i] = "read" /\ ~waiting[i]["S"] /\ waiting' = [waiting EXCEPT ![i]["S"] = TRUE]
-               /\ UNCHANGED <<sent, ended, killed, force, reason, rd, spc, sk, vpc, vk, gotExc, mpc, mk, exc, outcome, killIdx>>
+SaverAsk(i) == /\ vpc[i] = "read" /\ ReadAsk(i, "S")
+               /\ UNCHANGED <<sent, ended, killed, force, reason, spc, sk, vpc, vk, gotExc, mpc, mk, exc, outcome, toKill>>
 SaverRead(i) ==
-  /\ vpc[i] = "read" /\ waiting[i]["S"]
-  /\ IF killed[i] THEN vpc' = [vpc EXCEPT ![i] = "done"] /\ UNCHANGED rd        \* MailboxKilled: close with exception, exit gracefully
-     ELSE /\ Available(i, "S") /\ rd' = [rd EXCEPT ![i]["S"] = @ + 1]
-          /\ vpc' = [vpc EXCEPT ![i] = IF rd[i]["S"] < sent[i] THEN "save" ELSE "close"]
-  /\ waiting' = [waiting EXCEPT ![i]["S"] = FALSE]
-  /\ UNCHANGED <<sent, ended, killed, force, reason, spc, sk, vk, gotExc, mpc, mk, exc, outcome, killIdx>>
+  /\ vpc[i] = "read"
+  /\ \/ ReadKilled(i, "S") /\ vpc' = [vpc EXCEPT ![i] = "done"]        \* MailboxKilled: close with exception, exit gracefully
+     \/ ReadItem(i, "S") /\ vpc' = [vpc EXCEPT ![i] = IF ItemIsChunk(i, "S") THEN "save" ELSE "close"]
+  /\ UNCHANGED <<sent, ended, killed, force, reason, spc, sk, vk, gotExc, mpc, mk, exc, outcome, toKill>>
 SaverSave(i) ==
   /\ vpc[i] \in {"save", "close"}
   /\ IF (vpc[i] = "save" /\ Fail = <<"saver", i, vk[i]>>) \/ (vpc[i] = "close" /\ Fail = <<"close", i, 0>>) THEN
@@ -110,43 +139,43 @@ SaverSave(i) ==
            ELSE UNCHANGED <<killed, force, reason>>
      ELSE /\ vpc' = [vpc EXCEPT ![i] = IF vpc[i] = "save" THEN "read" ELSE "done"] /\ vk' = [vk EXCEPT ![i] = IF vpc[i] = "save" THEN @ + 1 ELSE @]
           /\ UNCHANGED <<gotExc, killed, force, reason>>
-  /\ UNCHANGED <<sent, ended, rd, waiting, spc, sk, mpc, mk, exc, outcome, killIdx>>
+  /\ UNCHANGED <<sent, ended, rd, lb, waiting, spc, sk, mpc, mk, exc, outcome, toKill>>
+SaverNext(i) == (SaverAsk(i) \/ SaverRead(i) \/ SaverSave(i)) /\ UNCHANGED params
 
 (* ------------------------------- main thread: ThreadedMailboxProcessor.iter ------------------------------- *)
-MainAsk == /\ mpc = "read" /\ ~waiting[NS]["M"] /\ waiting' = [waiting EXCEPT ![NS]["M"] = TRUE]
-           /\ UNCHANGED <<sent, ended, killed, force, reason, rd, spc, sk, vpc, vk, gotExc, mpc, mk, exc, outcome, killIdx>>
+MainAsk == /\ mpc = "read" /\ ReadAsk(NS, "M")
+           /\ UNCHANGED <<sent, ended, killed, force, reason, spc, sk, vpc, vk, gotExc, mpc, mk, exc, outcome, toKill>>
 MainRead ==
-  /\ mpc = "read" /\ waiting[NS]["M"]
-  /\ IF killed[NS] THEN mpc' = "killall" /\ exc' = reason[NS] /\ UNCHANGED <<rd, mk>>
-     ELSE /\ Available(NS, "M") /\ rd' = [rd EXCEPT ![NS]["M"] = @ + 1]
-          /\ IF rd[NS]["M"] < sent[NS] THEN mpc' = "consume" /\ mk' = mk + 1 ELSE mpc' = "join" /\ mk' = mk
-          /\ UNCHANGED exc
-  /\ waiting' = [waiting EXCEPT ![NS]["M"] = FALSE]
-  /\ UNCHANGED <<sent, ended, killed, force, reason, spc, sk, vpc, vk, gotExc, outcome, killIdx>>
+  /\ mpc = "read"
+  /\ \/ ReadKilled(NS, "M") /\ mpc' = "killall" /\ exc' = reason[NS] /\ toKill' = Stages /\ UNCHANGED mk
+     \/ /\ ReadItem(NS, "M")
+        /\ IF ItemIsChunk(NS, "M") THEN mpc' = "consume" /\ mk' = mk + 1 ELSE mpc' = "join" /\ mk' = mk
+        /\ UNCHANGED <<exc, toKill>>
+  /\ UNCHANGED <<sent, ended, killed, force, reason, spc, sk, vpc, vk, gotExc, outcome>>
 MainConsume ==
   /\ mpc = "consume"
-  /\ IF Fail = <<"consumer", 0, mk>> THEN       \* thrown into the target's generator: kill_from_exception on the target mailbox
-        LET k == KillOf(NS, "orig", killed, force, reason) IN
-        killed' = k[1] /\ force' = k[2] /\ reason' = k[3] /\ exc' = "orig" /\ mpc' = "killall"
-     ELSE IF Fail = <<"stop", 0, mk>> THEN mpc' = "killall" /\ exc' = "stop" /\ UNCHANGED <<killed, force, reason>>
-     ELSE mpc' = "read" /\ UNCHANGED <<killed, force, reason, exc>>
-  /\ UNCHANGED <<sent, ended, rd, waiting, spc, sk, vpc, vk, gotExc, mk, outcome, killIdx>>
-MainKill ==      \* for m in mailboxes: m.kill(upstream=True, reason)
-  /\ mpc = "killall"
-  /\ IF MainKills THEN LET k == KillOf(killIdx, exc, killed, force, reason) IN killed' = k[1] /\ force' = k[2] /\ reason' = k[3]
+  /\ IF Fail \in {<<"consumer", 0, mk>>, <<"stop", 0, mk>>} THEN
+        \* the generator of get_iter is closed: OutsideException is thrown into the target's _read at its yield
+        \* -> kill_from_exception on the target mailbox, re-raised into ThreadedMailboxProcessor.iter
+        LET k == KillOf(NS, "stop", killed, force, reason) IN
+        killed' = k[1] /\ force' = k[2] /\ reason' = k[3] /\ exc' = "stop" /\ mpc' = "killall" /\ toKill' = Stages
+     ELSE mpc' = "read" /\ UNCHANGED <<killed, force, reason, exc, toKill>>
+  /\ UNCHANGED <<sent, ended, rd, lb, waiting, spc, sk, vpc, vk, gotExc, mk, outcome>>
+MainKill(m) ==      \* for m in mailboxes.values(): m.kill(upstream=True, reason)   (in dict order; any order here)
+  /\ mpc = "killall" /\ m \in toKill
+  /\ IF MainKills THEN LET k == KillOf(m, exc, killed, force, reason) IN killed' = k[1] /\ force' = k[2] /\ reason' = k[3]
      ELSE UNCHANGED <<killed, force, reason>>
-  /\ IF killIdx = NS THEN mpc' = "join" /\ killIdx' = killIdx ELSE killIdx' = killIdx + 1 /\ mpc' = mpc
-  /\ UNCHANGED <<sent, ended, rd, waiting, spc, sk, vpc, vk, gotExc, mk, exc, outcome>>
+  /\ toKill' = toKill \ {m} /\ mpc' = IF toKill = {m} THEN "join" ELSE mpc
+  /\ UNCHANGED <<sent, ended, rd, lb, waiting, spc, sk, vpc, vk, gotExc, mk, exc, outcome>>
 AllThreadsDone == (\A i \in Stages : spc[i] = "done") /\ (\A i \in Stages : vpc[i] = "done")
 MainJoin ==      \* m.cleanup(): join every thread; then re-raise, or look at the savers' got_exception
   /\ mpc = "join" /\ AllThreadsDone
   /\ mpc' = "end"
   /\ outcome' = IF exc # "none" THEN exc ELSE IF \E i \in Stages : gotExc[i] THEN "orig" ELSE "returned"
-  /\ UNCHANGED <<sent, ended, killed, force, reason, rd, waiting, spc, sk, vpc, vk, gotExc, mk, exc, killIdx>>
+  /\ UNCHANGED <<sent, ended, killed, force, reason, rd, lb, waiting, spc, sk, vpc, vk, gotExc, mk, exc, toKill>>
+MainNext == (MainAsk \/ MainRead \/ MainConsume \/ (\E m \in Stages : MainKill(m)) \/ MainJoin) /\ UNCHANGED params
 
-Next == \/ \E i \in Stages : StageGate(i) \/ StageAsk(i) \/ StageFetch(i) \/ StageCompute(i) \/ StageSend(i)
-        \/ \E i \in Saved : SaverAsk(i) \/ SaverRead(i) \/ SaverSave(i)
-        \/ MainAsk \/ MainRead \/ MainConsume \/ MainKill \/ MainJoin
+Next == (\E i \in Stages : StageNext(i)) \/ (\E i \in Saved : SaverNext(i)) \/ MainNext
 Spec == Init /\ [][Next]_vars /\ WF_vars(Next)
 
 (* ---------------------------------- P-level (C06) ---------------------------------- *)
@@ -155,8 +184,8 @@ NoDeadlock == Finished \/ ENABLED Next
 EveryoneStops == Finished => AllThreadsDone
 CallerOutcome == Finished =>
    CASE Fail[1] = "none" -> outcome = "returned" /\ mk = NChunks
-     [] Fail[1] = "stop" -> outcome = "stop"
+     [] Fail[1] \in {"stop", "consumer"} -> outcome = "stop"     \* the pipeline side; the consumer's own exception is its own business
      [] OTHER -> outcome = "orig"                   \* the original exception, never "returned", never another reason
-EagerCap == ~Lazy => \A m \in Stages : Held(m) <= Cap
+EagerCap == \A m \in Stages : Held(m) <= Cap
 Terminates == <>Finished
 =============================================================================
